@@ -560,4 +560,10 @@ def rule_rank(ck, funcs=None, rule='C11-D8.rank'):
                 o.ok('no rank-sensitive use')
 
 
-RULES = [rule_scaling, rule_schema, rule_lookup, rule_axes, rule_loaders, rule_quadtree_schema, rule_spacing, rule_rank]
+def rule_tolerance_shared(ck):
+    from . import c02
+    ck.clause('shared C02-D2: no fixed binning tolerance inside the package')
+    c02.rule_tolerance_flow(ck)
+
+
+RULES = [rule_scaling, rule_schema, rule_lookup, rule_axes, rule_loaders, rule_quadtree_schema, rule_spacing, rule_rank, rule_tolerance_shared]
